@@ -219,6 +219,23 @@ class Body:
         e = (src, dst) if label is None else (src, dst, label)
         return target not in self.reachable(0, removed_edges=[e])
 
+    def natural_loop(self, head):
+        """Blocks of the natural loop(s) with header `head` (normal edges only)."""
+        preds = {}
+        for i in range(len(self.blocks)):
+            for t in self.succs(i, unwind=False):
+                preds.setdefault(t, []).append(i)
+        latches = [p for p in preds.get(head, []) if self.dominates(head, p, unwind=False)]
+        body = {head}
+        stack = [l for l in latches]
+        while stack:
+            n = stack.pop()
+            if n in body:
+                continue
+            body.add(n)
+            stack.extend(preds.get(n, []))
+        return body
+
     # ---- iteration helpers
     def stmts(self):
         for bi, b in enumerate(self.blocks):
